@@ -54,7 +54,7 @@ FAULT_PROFILE = {
     "stop_on_error": True,
     "wl_kwargs": 0.1,
     "split_bias": 0.3,
-    "distinct_positions": True,
+    "distinct_positions": False,
 }
 PREFIX_PROFILE = {
     "ops": {"aspirate": 2, "dispense": 2, "transfer": 6, "distribute": 2, "evo_aspirate": 1, "evo_dispense": 1, "comment": 1, "wash": 1, "commit": 1},
@@ -64,7 +64,7 @@ PREFIX_PROFILE = {
     "stop_on_error": True,
     "wl_kwargs": 0.1,
     "split_bias": 0.3,
-    "distinct_positions": True,
+    "distinct_positions": False,
 }
 
 
